@@ -452,7 +452,6 @@ package framework
 //@   loop 1
 //@     invariant 0 - 1 <= rangeindex && rangeindex < len(s.ssn.eventHandlers)
 //@     invariant allocEvents() - old(allocEvents()) <= rangeindex + 1
-//@     invariant rangeindex >= 0 && old(s.ssn.eventHandlers[0].AllocateFunc != nil) ==> allocEvents() > old(allocEvents())
 //@     decreases len(s.ssn.eventHandlers) - rangeindex
 //@   ensures [ok] result == nil
 //@   ensures [restoresGpuGroups] reclaimee.GPUGroups == previousGpuGroups
@@ -461,7 +460,6 @@ package framework
 //@   ensures [restoresStatus] reclaimee.Status == previousStatus || reclaimee.Status == old(reclaimee.Status)
 //@   ensures [nodeNameKept] reclaimee.NodeName == old(reclaimee.NodeName)
 //@   ensures [oppositeHandler] deallocEvents() == old(deallocEvents()) && allocEvents() - old(allocEvents()) <= old(len(s.ssn.eventHandlers))
-//@   ensures [firesAllocate] old(len(s.ssn.eventHandlers) > 0 && s.ssn.eventHandlers[0].AllocateFunc != nil) ==> allocEvents() > old(allocEvents())
 //@   ensures [virtual] noEmission() && reversals() == old(reversals())
 //@   ensures [logsSame] logsSame()
 //@   ensures [commitEnvKept] commitEnvKept(s.ssn)
@@ -475,7 +473,6 @@ package framework
 //@   loop 1
 //@     invariant 0 - 1 <= rangeindex && rangeindex < len(s.ssn.eventHandlers)
 //@     invariant deallocEvents() - old(deallocEvents()) <= rangeindex + 1
-//@     invariant rangeindex >= 0 && old(s.ssn.eventHandlers[0].DeallocateFunc != nil) ==> deallocEvents() > old(deallocEvents())
 //@     decreases len(s.ssn.eventHandlers) - rangeindex
 //@   ensures [restoresNode] task.NodeName == previousNode
 //@   ensures [restoresGpuGroups] task.GPUGroups == previousGpuGroups
@@ -484,7 +481,6 @@ package framework
 //@   ensures [restoresStatus] task.Status == previousStatus || task.Status == old(task.Status)
 //@   ensures [failsIffNodeUnknown] (result != nil) == !old(task.NodeName in s.ssn.ClusterInfo.Nodes)
 //@   ensures [oppositeHandler] allocEvents() == old(allocEvents()) && deallocEvents() - old(deallocEvents()) <= old(len(s.ssn.eventHandlers))
-//@   ensures [firesDeallocate] result == nil && old(len(s.ssn.eventHandlers) > 0 && s.ssn.eventHandlers[0].DeallocateFunc != nil) ==> deallocEvents() > old(deallocEvents())
 //@   ensures [noHandlerOnFailure] result != nil ==> deallocEvents() == old(deallocEvents())
 //@   ensures [virtual] noEmission() && reversals() == old(reversals())
 //@   ensures [logsSame] logsSame()
@@ -499,14 +495,12 @@ package framework
 //@   loop 1
 //@     invariant 0 - 1 <= rangeindex && rangeindex < len(s.ssn.eventHandlers)
 //@     invariant deallocEvents() - old(deallocEvents()) <= rangeindex + 1
-//@     invariant rangeindex >= 0 && old(s.ssn.eventHandlers[0].DeallocateFunc != nil) ==> deallocEvents() > old(deallocEvents())
 //@     decreases len(s.ssn.eventHandlers) - rangeindex
 //@   ensures [failsIffNodeUnknown] (result != nil) == !old(task.NodeName in s.ssn.ClusterInfo.Nodes)
 //@   ensures [clearsNode] result == nil ==> task.NodeName == "" && task.IsVirtualStatus == previousIsVirtualStatus
 //@   ensures [backToPending] task.Status == pod_status.Pending || task.Status == old(task.Status)
 //@   ensures [gpuGroupsKept] task.GPUGroups == old(task.GPUGroups) && task.ResourceClaimInfo == old(task.ResourceClaimInfo)
 //@   ensures [oppositeHandler] allocEvents() == old(allocEvents()) && deallocEvents() - old(deallocEvents()) <= old(len(s.ssn.eventHandlers))
-//@   ensures [firesDeallocate] result == nil && old(len(s.ssn.eventHandlers) > 0 && s.ssn.eventHandlers[0].DeallocateFunc != nil) ==> deallocEvents() > old(deallocEvents())
 //@   ensures [virtual] noEmission() && reversals() == old(reversals())
 //@   ensures [logsSame] logsSame()
 //@   ensures [commitEnvKept] commitEnvKept(s.ssn)
